@@ -3,6 +3,10 @@
 import json, os, sys
 sys.path.insert(0, os.path.dirname(os.path.abspath(__file__)))
 import manifest_src as M
+import glob
+for f in sorted(glob.glob(os.path.join(os.path.dirname(os.path.abspath(__file__)), "claims", "C*.json"))):
+    d = json.load(open(f))
+    M.CLAIMED[os.path.basename(f)[:-5]] = d
 
 VERIF = os.path.dirname(os.path.dirname(os.path.abspath(__file__)))
 ids = [json.loads(l)["id"] for l in open(os.path.join(VERIF, "properties.jsonl"))]
